@@ -138,7 +138,9 @@ Fixpoint push_ring (bytes : list N) (off : N) (rg : list N) (start line : N) : l
     let '(rg1, start1, line1) :=
       if N.of_nat (length rg) =? RING_BUFFER_SIZE then
         match rg with
-        | ev :: rg' => (rg', start0 + 1, if ev =? 10 then line + 1 else line)
+        | ev :: rg' =>
+          let lone_cr := (ev =? 13) && negb (match rg' with 10 :: _ => true | _ => false end) in
+          (rg', start0 + 1, if (ev =? 10) || lone_cr then line + 1 else line)
         | [] => (rg, start0, line)
         end
       else (rg, start0, line) in
